@@ -144,6 +144,11 @@ def Rec.normCtor (r : Rec) : Rec :=
 def Question.normCtor (q : Question) : Question :=
   { q with class_ := Gen.Dns.class_of q.class_, unique := Gen.Dns.unique_of q.class_ }
 
+/-- `DNSRecord._suppressed_by_answer`: `self == other and other.ttl > self.ttl / 2` (the first conjunct is pinned by the
+translator, the second is the generated leaf) -/
+def Rec.suppressedByAnswer (lower : String → String) (a b : Rec) : Bool :=
+  a.beq lower b && Gen.Dns.suppressed_by_answer_ttl a.ttl b.ttl
+
 /-! ### `DNSRRSet`: known-answer suppression looks records up by identity -/
 
 /-- `{record: record for record in records}.get(r)`: the value kept for a key is the *last* equal record -/
